@@ -13,7 +13,7 @@ NOTE = ("bounded: only the listed alphabets (names, values, options) and histori
 CLAIMED = {
     "C01": ("Every document reachable by <= depth calls of the document alphabet (about 67 letters, DESIGN 12.2: namespace declarations at document "
             "and bundle level, bundles created and attached, every name spelling, elements, relations, attributes, in-place editors incl. asserted types in namespaces the container has not seen) and every case of the cartesian "
-            "shape sweep (15 namespace environments x 55 record shapes x id modes x all value kinds and attribute-name classes x json.dump "
+            "shape sweep (15 namespace environments x 55 record shapes x id modes x all value kinds and attribute-name classes, incl. application attributes named like PROV-DM arguments in a fragment-style namespace on every record kind, x json.dump "
             "options, plus quantity cases: the 3rd / 11th / 12th / 14th entity, relation, attribute name, value, bundle, namespace under one prefix) is written as PROV-JSON, read back and compared strictly (URI level, kind-aware, multiset); every document that round-trips is then edited in place (set_time, add_attributes in a new namespace, a new record) and written again through the same serializer object: the second text must denote the edited document and equal a fresh export. "
             "Exhaustive within the stated alphabet and bound, nothing sampled.  One recorded finding (F44, two bundles printing alike) is reported as KNOWN-FINDING.", TECH + "; exhaustive shape sweeps", NOTE),
     "C03": ("All interleavings of add_namespace / set_default_namespace / valid_qualified_name (QualifiedName "
@@ -25,11 +25,11 @@ CLAIMED = {
     "C18": ("Every state reachable by <= depth record-adding calls (factories in every spelling, new_record, "
             "add_record, update, on a document and a bundle; a default namespace nested under a prefixed one) and every container derived from it by constructor / "
             "unified / flattened / update / add_bundle / JSON / XML reload is probed (string spellings before QualifiedName objects) with every spelling of every "
-            "present identifier and absent ones (questions that cannot register a namespace first), also after the transformations and exporters have read the container; look-ups of unresolvable names are part of the histories; get_record, get_records(cls) and records are compared with a scan (and typed listings must be snapshots: consumed after a later addition they still show the earlier state) "
+            "present identifier, absent ones and spellings the container cannot resolve at all (unknown prefix, blank-node id, bare name, uncovered URI, empty string; questions that cannot register a namespace first), also after the transformations and exporters have read the container; look-ups of unresolvable names are part of the histories; get_record, get_records(cls) and records are compared with a scan (and typed listings must be snapshots: consumed after a later addition they still show the earlier state) "
             "of the record list.", TECH, NOTE),
     "C08": ("Every document reachable by <= depth record/attribute additions that make identifiers collide (same "
             "identifier through a prefix, an alias prefix and the full URI; entity/agent/activity; generation/usage; "
-            "conflicting times and activities; identified memberships with and without a member; document and bundle; set_time and a reading operation as letters; 37 letters) is unified and compared with a reference "
+            "conflicting times and activities; identified memberships with and without a member; document and bundle; the bare spelling under a default namespace of the same URI (one identifier that prints in two ways); set_time and a reading operation as letters; 39 letters) is unified and compared with a reference "
             "unification computed on strict observations: result content and order, refusal iff a single-valued "
             "conflict exists, idempotence, bundle-level unified(), source unchanged; when a record editor leaves the library's reading of a record different from the calls made, unified() is judged against the reference model.", TECH, NOTE),
     "C09": ("All states of a 25-letter document alphabet (incl. falsy values and PROV argument names as additional attributes) to depth 3 are collected; for every ordered pair (d, other) "
@@ -41,11 +41,11 @@ CLAIMED = {
             "into another and into the own container, update, add_bundle(document), unified, flattened, JSON/XML reload) x every follow-up mutation (attribute "
             "on each record, new record, add_namespace incl. clashing, set_default_namespace, bundle(), the same "
             "inside each bundle) x side mutated (thorough: x a second mutation on the other side); the untouched "
-            "side's ordered strict content and namespace observation must not change.", TECH, NOTE),
+            "side's ordered strict content and namespace observation must not change, and it must resolve names given as strings exactly as its twin (same history and derivation, no mutation) does.", TECH, NOTE),
     "C04": ("For every state of the document alphabet to depth 3 (thorough 4) and every single-record shape, "
             "the family of all one-step content-preserving variants (rotations, reversal, prefix renaming, record "
             "duplication, rebuild, JSON/XML reload) and content-changing edits (identifier, kind, attribute value / "
-            "name / presence / kind, record, bundle, bundle identifier, record placement; the base edited in place after it was hashed) is realised through the public API; "
+            "name / presence / kind, record, bundle, bundle identifier, record placement; the base edited in place after it was hashed; bases with memberships holding 2-4 members) is realised through the public API; "
             "== / != are evaluated on every ordered pair of documents, bundles and records of the family and compared "
             "with set equality of strict observations; symmetry, reflexivity, transitivity over all triples, hash "
             "consistency; scripts/prov-compare is run as a subprocess on a subset in both argument orders.", TECH, NOTE),
@@ -58,7 +58,7 @@ CLAIMED = {
     "C05": ("Full product of 18 record kinds x 5 creation paths (typed factory, element convenience method, new_record x 3) x every accepted representation of each formal "
             "argument (record object, QualifiedName, prefix:local, full URI, Identifier; datetime, ISO string, typed literal) x "
             "optional-argument masks (new_record also without the second formal argument), each followed by every sequence of <= 1 (thorough 2) follow-up additions "
-            "(same value, same value in another representation, different value, unparsable value; add_attributes "
+            "(same value, same value in another representation, different value, the same time reading at another UTC offset, unparsable value; add_attributes "
             "dict / pair list / one-shot iterator / set_time), executed in lock-step with a reference record: normal-form invariant after "
             "every call, refusal iff a different value is offered for a filled formal attribute, refusals change "
             "nothing; plus 1320 literal-vs-native cases over every attribute class and entry path.", TECH, NOTE),
@@ -72,7 +72,7 @@ CLAIMED = {
             "ElementTree.iterparse with its own namespace-scope stack, both written from the specifications' structural "
             "rules and importing nothing from prov; the structural rules must hold on the emitted text and the "
             "recovered document must equal the strict observation of the original, so a symmetric writer/reader "
-            "mistake or a renamed key is caught.", TECH + "; independent specification-derived readers as oracle",
+            "mistake or a renamed key is caught; every document judged clean is then edited in place (set_time, add_attributes, a new record) and emitted and judged again in every format.", TECH + "; independent specification-derived readers as oracle",
             NOTE + "; the independent readers (validated by a differential run over the 398 JSON + 44 XML corpus files: "
             "agreement except the J1-excluded 1/True attribute sets) are trusted"),
     "C06": ("The C01 enumerations (history exploration + shape sweep over all record shapes, argument masks, id modes, "
@@ -82,8 +82,8 @@ CLAIMED = {
             "declarations first, bundles last, ECHAR escapes, typed / language literals) and the parsed document must "
             "equal the strict observation of the original.", TECH + "; independent PROV-N parser as oracle",
             NOTE + "; the PROV-N parser (written from the grammar as recalled in DESIGN appendix A.1) is trusted"),
-    "C14": ("Every bundle-free document reachable by <= depth calls of a 31-letter alphabet (declared and undeclared "
-            "endpoints, entity+agent under one identifier, eight relation kinds, self-loops, parallel duplicates, "
+    "C14": ("Every bundle-free document reachable by <= depth calls of a 33-letter alphabet (declared and undeclared "
+            "endpoints, entity+agent under one identifier, eight relation kinds, self-loops incl. loops on undeclared names whose two roles imply different kinds, parallel duplicates, "
             "identified/anonymous, missing endpoints, attributes incl. names that are graph data keys: relation, key, weight) is converted with prov_to_graph and compared with a "
             "reference graph computed from the reference unification (after two decoy documents using the same names in other roles were converted): node multiset, inferred nodes and their kinds, edge multiset "
             "with endpoints by URI and the carried relation, MultiDiGraph-ness; graph_to_prov must return the unified "
@@ -100,12 +100,12 @@ CLAIMED = {
             "pairwise (bytes = UTF-8 of the text; XML by canonical form), then x 9 sources (content str/bytes, text/"
             "binary stream seekable and non-seekable, GB18030 text file, tempfile text wrapper, path) x up to 4 readers (deserialize, prov.read with format in "
             "either case, prov.read without format - an exploration of the stream position its detection attempts "
-            "leave behind); PROV-N must not be read back.  The path destination and path source are also exercised in a child process whose default text encoding is ASCII (LC_ALL=C): same bytes, same document.  Other non-UTF-8 locales are not installed here.", "exhaustive enumeration of the finite product of documents, "
+            "leave behind), each successful read followed by an edit of the returned document and a second read of a fresh source of the same kind (the text's document again, a new object), and the path rewritten with another document and read again; PROV-N must not be read back.  The path destination and path source are also exercised in a child process whose default text encoding is ASCII (LC_ALL=C): same bytes, same document.  Other non-UTF-8 locales are not installed here.", "exhaustive enumeration of the finite product of documents, "
             "formats, destination kinds, source kinds and readers on the real API (environment-answer enumeration)", NOTE),
     "C17": ("Fault enumeration at the system-call boundary (LD_PRELOAD shim native/faultfs.c interposing write, rename*, "
             "sendfile, copy_file_range, open*, unlink, fsync for sandbox paths): full product of 4 formats x document "
             "sizes (1, several, many write calls) x 17 destination names (incl. a symbolic link to a regular file and names near the 255-byte limit in multi-byte and ASCII characters) (relative, absolute, space, non-ASCII, '#', '?', '%20', '%', '&', '~', "
-            "';', ':', sub-directory; given as str, pathlib.Path and bytes) x pre-existing/absent x every schedule with <= 1 (thorough 2) deviations from the "
+            "';', ':', sub-directory; given as str, pathlib.Path and bytes) x destination absent / pre-existing / pre-existing after this very document had been saved there before x every schedule with <= 1 (thorough 2) deviations from the "
             "fault-free call sequence: k-th write fails or is short for every k, the move fails once, fails every time (EACCES / EPERM) or answers EXDEV and the "
             "copy fallback's steps fail, close fails, temp-file removal fails, the serialiser itself raises.  Success must create "
             "exactly the named file with exactly the BytesIO bytes and touch nothing else; failure must reach the caller "
